@@ -140,7 +140,11 @@ def gen_scenario(rng):
         for _ in range(rng.randint(1, 4)):
             r = rng.random()
             jid += 1
-            name = 'j{}'.format(jid)
+            # (a name is the text the caller gave, blanks at either end
+            # included: the controller files, reports and stops a job under
+            # exactly that text)
+            pad = rng.choice(['', '', '', '', ' ', '  ', '\t'])
+            name = rng.choice(['j{}' + pad, pad + 'j{}']).format(jid)
             kind = rng.choice(['finish', 'finish', 'finish', 'raise', 'loop',
                                'finish', 'finish', 'raise', 'loop',
                                rng.choice(['raise-base', 'raise-exit',
@@ -151,7 +155,14 @@ def gen_scenario(rng):
             elif r < 0.75:
                 ops.append(('insert', name, kind, length))
             elif r < 0.9:
-                ops.append(('spawn', 'bg{}'.format(jid), rng.choice(
+                bgname = 'bg{}'.format(jid)
+                if rng.random() < 0.3:
+                    earlier = [o[1] for cl in clients + [ops] for o in cl
+                               if o[0] == 'spawn']
+                    # ... or differs from an earlier name only by a blank
+                    bgname = (rng.choice(earlier).strip() + ' \t' * jid) \
+                        if earlier and rng.random() < 0.5 else bgname + pad
+                ops.append(('spawn', bgname, rng.choice(
                     ['finish', 'raise', 'loop', 'finish', 'loop',
                      'raise-base', 'raise-exit']), length))
                 kind = ops[-1][2]
@@ -172,6 +183,10 @@ def gen_scenario(rng):
                 continue
             has_loop = has_loop or kind == 'loop'
         clients.append(ops)
+    if rng.random() < 0.3 and len(clients) < 3:
+        # a client that only watches: `while jc.has_jobs(): ...` is how the
+        # front ends wait for the end
+        clients.append([('status',)] * rng.choice([2, 4, 6, 12, 25, 40]))
     return clients, has_loop
 
 
@@ -439,12 +454,32 @@ def analyse(ctx, out, clients, replay):
             spans.setdefault(h[3], {})['spawned'] = h[4]
         elif h[0] == 'end' and h[1] in bg:
             spans.setdefault(h[1], {})['end'] = h[2]
+    # ... and while a queued job is certainly unfinished (handed over before
+    # the read began, ending after it returned): wherever the job is at that
+    # moment -- waiting, being taken out of the queue, executing -- the
+    # controller does not say that it has no jobs
+    qspans = {}
+    for h in hist:
+        if h[0] == 'ret' and h[2] in ('add', 'insert'):
+            qspans.setdefault(h[3], {})['handed'] = h[4]
+        elif h[0] == 'end' and h[1] in queued:
+            qspans.setdefault(h[1], {})['end'] = h[2]
     opens = {}
     for h in hist:
         if h[0] == 'call' and h[2] == 'status':
             opens[h[1]] = h[4]
         elif h[0] == 'ret' and h[2] == 'status' and h[5] is not None:
             t0, t1 = opens.get(h[1], h[4]), h[4]
+            for name, sp in qspans.items():
+                if 'handed' in sp and 'end' in sp and \
+                        sp['handed'] < t0 and t1 < sp['end']:
+                    ctx.count('status_reads_during_queued_job')
+                    if not h[5][0]:
+                        ctx.violation(
+                            'no-jobs-reported-while-a-queued-job-is-unfinished',
+                            'has_jobs() was False between the hand-over of {} '
+                            'and its end'.format(name), replay)
+                        return False
             for name, sp in spans.items():
                 if 'spawned' in sp and 'end' in sp and \
                         sp['spawned'] < t0 and t1 < sp['end']:
